@@ -263,6 +263,28 @@ def run_check(pid, mod, tier, seed):
         seen_names.add(key)
         path = write_replay(pid, o, r, rep)
         violations.append((o, r, rep, path))
+    # an obligation the solvers could not decide is NOT a violation - unless the unit's native replay (scenario battery on the
+    # real code, judged by the contract's own oracle) exhibits a failing input: then the failing input is the evidence and
+    # the undecided obligation is the one named
+    still_undecided = []
+    unit_witness = {}
+    for o, r in undecided:
+        if o.kind in ("cover", "finding") or o.unit not in REG.replays:
+            still_undecided.append((o, r))
+            continue
+        if o.unit not in unit_witness:
+            unit_witness[o.unit] = try_replay(pid, o, dict(r, model=None))
+        rep = unit_witness[o.unit]
+        if rep and rep.get("confirmed"):
+            key = (o.unit, o.name)
+            if key not in seen_names:
+                seen_names.add(key)
+                r2 = dict(r, verdict="unknown (solvers) + failing input found natively", backend="native-witness")
+                path = write_replay(pid, o, r2, rep)
+                violations.append((o, r2, rep, path))
+        else:
+            still_undecided.append((o, r))
+    undecided = still_undecided
     for s in syn_results:
         if not s["ok"]:
             kf = next((k for k in known if k.get("obligation") == s["name"]), None)
